@@ -150,6 +150,10 @@ func propC14(t *rapid.T) {
 		desc := func() string { return d.String() }
 		var buf bytes.Buffer
 		var werr error
+		if rapid.IntRange(0, 3).Draw(t, "secondcall") == 0 && len(d.Siblings) > 0 {
+			// another frame was written just before (whatever the writer keeps between calls must not show)
+			_ = hx.Safely(func() { _ = d.Siblings[0].ToJSON(&bytes.Buffer{}); _ = d.QF.ToJSON(&bytes.Buffer{}) })
+		}
 		if perr := hx.Safely(func() { werr = d.QF.ToJSON(&buf) }); perr != nil {
 			t.Fatalf("ToJSON panicked: %v\n%s", perr, desc())
 		}
